@@ -8,7 +8,7 @@
 use crate::event::Ev;
 use crate::gen::{profile, Gen};
 use crate::rng::{derive, Fnv};
-use crate::runner::{ev_compact, regime_name, workers, VERIF};
+use crate::runner::{ev_compact, regime_name, verif_root, workers};
 use crate::sim::{Regime, Sim, SimCfg};
 use serde_json::json;
 use std::io::{BufRead, BufReader, Write};
@@ -91,7 +91,7 @@ pub fn run_trace_guarded(events: &[Ev]) -> Sim {
 }
 
 fn f32_exe() -> String {
-    format!("{}/sim/target-f32/release/corgisim", VERIF)
+    format!("{}/sim/target-f32/release/corgisim", verif_root())
 }
 
 struct Child {
